@@ -637,6 +637,12 @@ func init() {
 	// ---------------------------------------------------------------- C11
 	register(&Prop{ID: "C11",
 		Gen: func(r *RNG, tier string, run int) *Trace {
+			if run%101 == 5 {
+				// volume stratum: more than 64 KiB (128 KiB) under one sort, a second
+				// sort with little new data, lengths that are no multiple of 64 KiB;
+				// high-entropy data so that the indexed optimiser stays cheap
+				return genSAGrow(r, "OSAP")
+			}
 			pg := defaultPGen()
 			pg.wReadAt = 0
 			pg.nOps = 30
